@@ -657,6 +657,7 @@ package checkers
 //@ func (*ifElseChainChecker).countIfelseLen
 //@   prop C14
 //@   nosafety node shapes are the subject of the C01 sweep
+//@   astvalid the loop measure is the depth of a tree node
 //@   assigns mapof(c.visited)
 //@   abstracts result as chainLen(stmt)
 //@   loop 1 invariant @still-a-tree-node tnode(stmt)
